@@ -323,7 +323,12 @@ func largeFileReceive(wrt http.ResponseWriter, req *http.Request) {
 		return
 	}
 
-	fdef, err = store.Files.FinishUpload(fdef, true, size)
+	// On failure the adapter returns no definition: keep the one at hand for the cleanup below.
+	if finished, ferr := store.Files.FinishUpload(fdef, true, size); ferr == nil && finished != nil {
+		fdef = finished
+	} else {
+		err = ferr
+	}
 	if err != nil {
 		logs.Info.Println("media upload: failed to finalize", file, "key", fdef.Location, err)
 		// Best effort cleanup.
